@@ -49,7 +49,7 @@ fn to_val(env: &Env, v: &ScVal) -> Val {
 }
 
 pub fn run(ctx: &Ctx, rep: &mut Report) {
-    let total = ctx.universes(240, 10000);
+    let total = ctx.universes(1920, 80000);
     for uni in ctx.my_universes(total) {
         let mut rng = ctx.rng_for(uni);
         rep.begin_universe(uni);
